@@ -280,6 +280,14 @@ func (d *Device) handleABSEvent(ie *input.InputEvent) {
 		}
 	case config.AnalogActionSim:
 		if d.checkDoubleActions() {
+			// panic always works, also while an up/down pair is held (as for the panic key)
+			v := value
+			if !canBeNegative {
+				v = v*2 - 1.0
+			}
+			if (v <= -0.5 && analog.ActionNeg == config.Panic) || (v >= 0.5 && analog.Action == config.Panic) {
+				d.invokeActionPress(config.Panic)
+			}
 			return
 		}
 
